@@ -24,6 +24,27 @@ open Verif Verif.GoSemCap Verif.BufioxGen
 open Verif.GoSem (GM wrap LoopR IT)
 set_option linter.unusedSimpArgs false
 
+/-- decide the first `if` of the goal by linear arithmetic: the impossible branch is closed, the other one stays
+    (whatever way round the source wrote the comparison) -/
+macro "split_omega" : tactic =>
+  `(tactic| (split <;> try (exfalso; simp only [decide_eq_true_eq, decide_eq_false_iff_not, Bool.not_eq_true,
+      gt_iff_lt, ge_iff_le, ne_eq] at *; omega)))
+
+/-- a goal made of `if`s over linear integer conditions on both sides: every combination of branches is either
+    contradictory (omega) or the two sides agree — whatever way round the source wrote its comparisons -/
+macro "arith_cases" : tactic => `(tactic| (
+  (repeat' split) <;>
+  (try simp only [decide_eq_true_eq, decide_eq_false_iff_not, Bool.not_eq_true, gt_iff_lt, ge_iff_le, ne_eq] at *) <;>
+  (try (simp (disch := omega) only [wrap_i64_id] at *)) <;>
+  first | (exfalso; omega) | rfl | (simp; done)))
+
+/-- a conditional assignment that sits in front of code which does not depend on the condition any more -/
+theorem ite_bind {α β : Type} (c : Prop) [Decidable c] (x y : GM α) (f : α → GM β) :
+    (if c then x else y).bind f = if c then x.bind f else y.bind f := by split <;> rfl
+
+/-- remove every `wrap .i64` whose argument is in range, whatever its shape -/
+macro "unwrap" : tactic => `(tactic| simp (disch := omega) only [wrap_i64_id])
+
 /-- Go error value ↔ the reader model's `Option RErr` -/
 def errAbs : Err → Option RErr
   | .nil => none
@@ -58,17 +79,37 @@ def srcReader : IoReader Src := ⟨fun s room => ((s.read room).1, errCon (s.rea
 
 /-! ## maxSizeStats -/
 
-theorem maxSize_loop (l : List Int) (m : Int) :
-    maxSizeStats_maxSize_loop1 l m = .ok (l.foldl max m) := by
+/-- a `range` loop that keeps the maximum — ANY function with these two equations (the generated loop function is
+    found by unification at the use site, never named in a statement) -/
+theorem range_max_bind {β : Type} (L : List Int → Int → GM Int) (hnil : ∀ m, L [] m = .ok m)
+    (hcons : ∀ x xs m, L (x :: xs) m = L xs (max m x)) (l : List Int) (m : Int) (K : Int → GM β) :
+    (L l m).bind K = K (l.foldl max m) := by
   induction l generalizing m with
-  | nil => rfl
-  | cons x xs ih =>
-    unfold maxSizeStats_maxSize_loop1
-    by_cases h : m < x
-    · have : max m x = x := by omega
-      simp [h, ih, this]
-    · have : max m x = m := by omega
-      simp [h, ih, this]
+  | nil => simp [hnil]
+  | cons x xs ih => rw [hcons, ih]; rfl
+
+/-- the same as an ascending index loop `for i := 0; i < N; i++` over the array -/
+theorem index_max_bind_aux {β : Type} (L : Nat → Int → Int → GM (Int × Int)) (b : List Int)
+    (step : ∀ (f : Nat) (m : Int) (i : Nat), L (f + 1) m (i : Int) =
+      if i < b.length then L f (max m (b.getD i 0)) ((i + 1 : Nat) : Int) else .ok (m, (i : Int)))
+    (K : Int × Int → GM β) :
+    ∀ (k i : Nat) (m : Int) (f : Nat), b.length - i = k → i ≤ b.length → k < f →
+      (L f m (i : Int)).bind K = K ((b.drop i).foldl max m, (b.length : Int)) := by
+  intro k
+  induction k with
+  | zero =>
+    intro i m f hk hi hf
+    obtain ⟨f, rfl⟩ : ∃ f', f = f' + 1 := ⟨f - 1, by omega⟩
+    have : ¬ i < b.length := by omega
+    have hi' : i = b.length := by omega
+    rw [step, if_neg this, hi']; simp
+  | succ k ih =>
+    intro i m f hk hi hf
+    obtain ⟨f, rfl⟩ : ∃ f', f = f' + 1 := ⟨f - 1, by omega⟩
+    have hlt : i < b.length := by omega
+    have hx : b.getD i 0 = b[i] := by simp [List.getD_eq_getElem?_getD, List.getElem?_eq_getElem hlt]
+    rw [step, if_pos hlt, ih (i + 1) _ f (by omega) (by omega) (by omega), hx]
+    conv => rhs; rw [List.drop_eq_getElem_cons hlt, List.foldl_cons]
 
 theorem foldl_max_toNat (l : List Int) (m : Int) (hm : 0 ≤ m) (hl : ∀ x ∈ l, 0 ≤ x) :
     ((l.foldl max m).toNat) = (l.map Int.toNat).foldl max m.toNat ∧ 0 ≤ l.foldl max m := by
@@ -81,14 +122,60 @@ theorem foldl_max_toNat (l : List Int) (m : Int) (hm : 0 ≤ m) (hl : ∀ x ∈ 
     have e : (max m x).toNat = max m.toNat x.toNat := by omega
     rw [← e]; exact this
 
-/-- `(*maxSizeStats).maxSize` is the model's `statsMax` of the recorded capacities -/
-theorem maxSizeStats_maxSize_eq (s : S_maxSizeStats) (h : ∀ x ∈ s.buckets, 0 ≤ x) :
+theorem index_max_bind {β : Type} (L : Nat → Int → Int → GM (Int × Int)) (b : List Int)
+    (step : ∀ (f : Nat) (m : Int) (i : Nat), L (f + 1) m (i : Int) =
+      if i < b.length then L f (max m (b.getD i 0)) ((i + 1 : Nat) : Int) else .ok (m, (i : Int)))
+    (K : Int × Int → GM β) (m : Int) (f : Nat) (hf : b.length < f) :
+    (L f m 0).bind K = K (b.foldl max m, (b.length : Int)) := by
+  have := index_max_bind_aux L b step K b.length 0 m f (by omega) (by omega) hf
+  simpa using this
+
+/-- `(*maxSizeStats).maxSize` is the model's `statsMax` of the recorded capacities (`hl`: a Go `[statsBucketNum]int`
+    has that many elements — needed when the source walks the array by index) -/
+theorem maxSizeStats_maxSize_eq (s : S_maxSizeStats) (h : ∀ x ∈ s.buckets, 0 ≤ x)
+    (hl : s.buckets.length = Facts.statsBucketNum) :
     maxSizeStats_maxSize s = .ok ((statsMax (s.buckets.map Int.toNat) : Nat) : Int) := by
+  have hm := foldl_max_toNat s.buckets 0 (by omega) h
+  simp at hm
+  have hl10 : s.buckets.length = 10 := hl
   unfold maxSizeStats_maxSize statsMax
-  have := foldl_max_toNat s.buckets 0 (by omega) h
-  simp at this
-  simp [maxSize_loop]
-  omega
+  simp only [Out.bind_eq, Out.pure_eq]
+  first
+  | -- `for _, size := range s.buckets`
+    rw [range_max_bind (L := _) (hnil := ?nil) (hcons := ?cons)]
+    case nil => intro m; rw [maxSizeStats_maxSize_loop1]; rfl
+    case cons =>
+      intro x xs m
+      rw [maxSizeStats_maxSize_loop1]
+      by_cases hc : m < x
+      · have e : max m x = x := by omega
+        have hc' : ¬ x ≤ m := by omega
+        simp [hc, hc', e]
+      · have e : max m x = m := by omega
+        have hc' : x ≤ m := by omega
+        simp [hc, hc', e]
+    simp; omega
+  | -- `for i := 0; i < statsBucketNum; i++`
+    rw [index_max_bind (L := _) (b := s.buckets) (step := ?step) (hf := by omega)]
+    case step =>
+      intro f m i
+      rw [maxSizeStats_maxSize_loop1]
+      by_cases hi : i < s.buckets.length
+      · have hi' : (i : Int) < 10 := by omega
+        have hw : wrap .i64 ((i : Int) + 1) = ((i + 1 : Nat) : Int) := by rw [wrap_i64_id] <;> omega
+        have hg : arrGet s.buckets (i : Int) = .ok (s.buckets.getD i 0) := by
+          simp [arrGet, List.getD_eq_getElem?_getD, List.getElem?_eq_getElem hi]
+        generalize s.buckets.getD i 0 = x at *
+        by_cases hc : m < x
+        · have e : max m x = x := by omega
+          have hc' : ¬ x ≤ m := by omega
+          simp [hi, hi', hg, hw, hc, hc', e]
+        · have e : max m x = m := by omega
+          have hc' : x ≤ m := by omega
+          simp [hi, hi', hg, hw, hc, hc', e]
+      · have hi' : ¬ (i : Int) < 10 := by omega
+        simp [hi, hi']
+    simp; omega
 
 /-- `(*maxSizeStats).update(size)` is the model's `listSet stats idx size` / `(idx + 1) % statsBucketNum` -/
 theorem maxSizeStats_update_eq (s : S_maxSizeStats) (size : Int) (hl : s.buckets.length = Facts.statsBucketNum)
@@ -99,72 +186,43 @@ theorem maxSizeStats_update_eq (s : S_maxSizeStats) (size : Int) (hl : s.buckets
   have hl' : s.buckets.length = 10 := hl
   have h1 : ¬ (s.bucketIdx < 0 ∨ s.bucketIdx ≥ (s.buckets.length : Int)) := by omega
   have h2 : wrap .i64 (s.bucketIdx + 1) = s.bucketIdx + 1 := wrap_i64_id _ (by omega) (by omega)
+  have h2c : wrap .i64 (1 + s.bucketIdx) = s.bucketIdx + 1 := by rw [wrap_i64_id] <;> omega
   have h3 : (s.bucketIdx + 1).tmod 10 = (s.bucketIdx + 1) % 10 := Int.tmod_eq_emod_of_nonneg (by omega)
-  simp [arrSet, h1, h2, h3, goMod, Facts.statsBucketNum]
+  simp [arrSet, h1, h2, h2c, h3, goMod, Facts.statsBucketNum]
   omega
 
 /-! ## the doubling loops and mcache's capacity rounding -/
 
-/-- `for ; maxSize < n; maxSize *= 2 {}`: the model's `doubleUntil` (any fuel that suffices on both sides; no int64 wrap
-    below 2^61) -/
-theorem double_loop {σ : Type} (R : IoReader σ) (O : Nat → Nat → Bytes) (n : Nat) (hn : n ≤ 2 ^ 61) (f : Nat) :
-    ∀ (m g : Nat), 0 < m → m ≤ 2 ^ 62 → n ≤ m * 2 ^ f → n ≤ m * 2 ^ g →
-      DefaultReader_acquireSlow_loop1 R O (n : Int) (f + 1) (m : Int) = .ok ((doubleUntil g m n : Nat) : Int) := by
-  induction f with
+/-- a doubling loop `for ; x < T'; x *= 2 {}` — ANY function `L` whose one-step unfolding (`step`, proved by unfolding
+    the generated loop function at the use site, where unification finds `L` with whatever parameters it takes) doubles
+    while the counter is below the target `T` — is the model's `doubleUntil` (any fuel that suffices on both sides; no
+    int64 wrap below 2^61). `acquireSlow` has two: towards `n` (first allocation) and towards `n + ri` (growth:
+    `ncap-r.ri < n`). Stated for the loop call followed by its continuation, so that `rw` finds it. -/
+theorem double_bind {β : Type} (L : Nat → Int → GM Int) (T : Nat) (hT : T ≤ 2 ^ 61)
+    (step : ∀ (f m : Nat), 0 < m → m ≤ 2 ^ 62 → L (f + 1) (m : Int) = if m < T then L f ((m : Int) * 2) else .ok (m : Int))
+    (f m g : Nat) (mi : Int) (hmi : mi = (m : Int)) (hm : 0 < m) (hm' : m ≤ 2 ^ 62) (hf : T ≤ m * 2 ^ f) (hg : T ≤ m * 2 ^ g)
+    (K : Int → GM β) :
+    (L (f + 1) mi).bind K = K ((doubleUntil g m T : Nat) : Int) := by
+  subst hmi
+  suffices h : L (f + 1) (m : Int) = .ok ((doubleUntil g m T : Nat) : Int) by rw [h]; rfl
+  induction f generalizing m g with
   | zero =>
-    intro m g hm hm' hf hg
-    have : ¬ m < n := by omega
-    have e : doubleUntil g m n = m := by cases g <;> simp [doubleUntil, this]
-    have : ¬ (m : Int) < (n : Int) := by omega
-    simp [DefaultReader_acquireSlow_loop1, this, e]
+    have : ¬ m < T := by omega
+    have e : doubleUntil g m T = m := by cases g <;> simp [doubleUntil, this]
+    rw [step 0 m hm hm', if_neg this, e]
   | succ f ih =>
-    intro m g hm hm' hf hg
-    unfold DefaultReader_acquireSlow_loop1
-    by_cases h : m < n
-    · have hI : (m : Int) < (n : Int) := by omega
-      cases g with
+    rw [step (f + 1) m hm hm']
+    by_cases h : m < T
+    · cases g with
       | zero => simp at hg; omega
       | succ g =>
-        have hw : wrap .i64 ((m : Int) * 2) = ((m * 2 : Nat) : Int) := by
-          rw [wrap_i64_id] <;> omega
-        have hf2 : n ≤ (m * 2) * 2 ^ f := by rw [Nat.pow_succ] at hf; rw [Nat.mul_assoc, Nat.mul_comm 2]; exact hf
-        have hg2 : n ≤ (m * 2) * 2 ^ g := by rw [Nat.pow_succ] at hg; rw [Nat.mul_assoc, Nat.mul_comm 2]; exact hg
+        have hf2 : T ≤ (m * 2) * 2 ^ f := by rw [Nat.pow_succ] at hf; rw [Nat.mul_assoc, Nat.mul_comm 2]; exact hf
+        have hg2 : T ≤ (m * 2) * 2 ^ g := by rw [Nat.pow_succ] at hg; rw [Nat.mul_assoc, Nat.mul_comm 2]; exact hg
         have := ih (m * 2) g (by omega) (by omega) hf2 hg2
-        simpa [hI, hw, doubleUntil, h] using this
-    · have hI : ¬ (m : Int) < (n : Int) := by omega
-      have e : doubleUntil g m n = m := by cases g <;> simp [doubleUntil, h]
-      simp [hI, e]
-
-/-- `for ncap = c; ncap-r.ri < n; ncap *= 2 {}`: the model's `growCap` (= `doubleUntil` towards `n + ri`) -/
-theorem grow_loop (R : IoReader Src) (O : Nat → Nat → Bytes) (r : S_DefaultReader Src) (ri n : Nat) (hri : r.ri = (ri : Int))
-    (hn : n + ri ≤ 2 ^ 61) (f : Nat) :
-    ∀ (m g : Nat), 0 < m → m ≤ 2 ^ 62 → n + ri ≤ m * 2 ^ f → n + ri ≤ m * 2 ^ g →
-      DefaultReader_acquireSlow_loop2 R O r (n : Int) (f + 1) (m : Int) = .ok ((doubleUntil g m (n + ri) : Nat) : Int) := by
-  induction f with
-  | zero =>
-    intro m g hm hm' hf hg
-    have : ¬ m < n + ri := by omega
-    have e : doubleUntil g m (n + ri) = m := by cases g <;> simp [doubleUntil, this]
-    have hw : wrap .i64 ((m : Int) - (ri : Int)) = (m : Int) - (ri : Int) := by rw [wrap_i64_id] <;> omega
-    have : ¬ (m : Int) - (ri : Int) < (n : Int) := by omega
-    simp [DefaultReader_acquireSlow_loop2, hri, hw, this, e]
-  | succ f ih =>
-    intro m g hm hm' hf hg
-    unfold DefaultReader_acquireSlow_loop2
-    have hw0 : wrap .i64 ((m : Int) - (ri : Int)) = (m : Int) - (ri : Int) := by rw [wrap_i64_id] <;> omega
-    by_cases h : m < n + ri
-    · have hI : (m : Int) - (ri : Int) < (n : Int) := by omega
-      cases g with
-      | zero => simp at hg; omega
-      | succ g =>
-        have hw : wrap .i64 ((m : Int) * 2) = (m : Int) * 2 := by rw [wrap_i64_id] <;> omega
-        have hf2 : n + ri ≤ (m * 2) * 2 ^ f := by rw [Nat.pow_succ] at hf; rw [Nat.mul_assoc, Nat.mul_comm 2]; exact hf
-        have hg2 : n + ri ≤ (m * 2) * 2 ^ g := by rw [Nat.pow_succ] at hg; rw [Nat.mul_assoc, Nat.mul_comm 2]; exact hg
-        have := ih (m * 2) g (by omega) (by omega) hf2 hg2
-        simpa [hri, hw0, hI, hw, doubleUntil, h] using this
-    · have hI : ¬ (m : Int) - (ri : Int) < (n : Int) := by omega
-      have e : doubleUntil g m (n + ri) = m := by cases g <;> simp [doubleUntil, h]
-      simp [hri, hw0, hI, e]
+        simp only [Int.natCast_mul, Int.cast_ofNat_Int] at this
+        simp [h, doubleUntil, this]
+    · have e : doubleUntil g m T = m := by cases g <;> simp [doubleUntil, h]
+      simp [h, e]
 
 /-- doubling from a power of two stops at the least power of two that covers the target -/
 theorem doubleUntil_pow (f j k c : Nat) (hjk : j ≤ k) (hf : k - j ≤ f) (hc : c ≤ 2 ^ k)
@@ -256,52 +314,81 @@ theorem refill_ok (b : Sl) (s : Src) (hlen : b.len ≤ b.mem.length) (hcap : b.m
     r.2.1 = ((s.read (b.mem.length - b.len)).1.length : Int) ∧
     r.2.2.1 = errCon (s.read (b.mem.length - b.len)).2.1 ∧
     r.2.2.2 = (s.read (b.mem.length - b.len)).2.2 ∧
-    sslice b2 0 (wrap .i64 (slen b2 + r.2.1)) = .ok (filled b (s.read (b.mem.length - b.len)).1) ∧
-    -- the same with `len(r.buf)` taken before the Read (a hoisted `l := len(r.buf)` in the source is harmless)
-    sslice b2 0 (wrap .i64 (slen b + r.2.1)) = .ok (filled b (s.read (b.mem.length - b.len)).1) := by
+    -- `r.buf[:hi]` for any way of writing `hi = len(r.buf) + m`
+    (∀ hi : Int, hi = ((b.len + (s.read (b.mem.length - b.len)).1.length : Nat) : Int) →
+      sslice b2 0 hi = .ok (filled b (s.read (b.mem.length - b.len)).1)) := by
   have hrl := Src.read_len s (b.mem.length - b.len)
   generalize hd : (s.read (b.mem.length - b.len)).1 = d at hrl
   simp only [ioRead, srcReader, putBack, slen, hd]
   refine ⟨trivial, trivial, trivial, ?_⟩
+  intro hi hhi
+  subst hhi
   have e1 : d.take (b.mem.length - b.len) = d := List.take_of_length_le hrl
-  have hw : wrap .i64 ((b.len : Int) + (d.length : Int)) = ((b.len + d.length : Nat) : Int) := by
-    rw [wrap_i64_id] <;> omega
-  simp only [e1, hw, and_self]
+  simp only [e1]
   rw [sslice_ok _ _ _ (by omega) (by omega) (by simp [scap]; omega)]
   simp [filled, List.drop_drop]
   omega
 
-/-- one round of the read loop of acquireSlow, in normal form -/
-theorem loop3_succ (O : Nat → Nat → Bytes) (n : Int) (fuel : Nat) (i : Int) (g : S_DefaultReader Src) (s : Src)
-    (hrd : g.rd = some s) (hi : GInv g) (hlt : i < 100) (hi0 : -1 ≤ i) :
-    DefaultReader_acquireSlow_loop3 srcReader O n (fuel + 1) i g =
+set_option hygiene false in
+/-- proves `ReadStep (the generated read loop) ↑n` (`n : Nat` is the request of the use site: no hygiene): unfold one round, split on what the source answered, let simp finish
+    with both readings of every comparison -/
+macro "read_step" : tactic => `(tactic| (
+  refine ⟨?_, ?_⟩
+  · intro fuel g i s hrd hi hlt hi0
+    have h1 := spare_ok g.buf hi.len_le
+    obtain ⟨h2, h3, h4, h5⟩ := refill_ok g.buf s hi.len_le hi.cap_le
+    have hrl := Src.read_len s (g.buf.mem.length - g.buf.len)
+    generalize hres : s.read (g.buf.mem.length - g.buf.len) = res at *
+    have hri0 := hi.ri_nonneg; have hri := hi.ri_le; have hlen := hi.len_le; have hcap := hi.cap_le
+    have hfl : (filled g.buf res.1).len = g.buf.len + res.1.length := rfl
+    have hw : wrap .i64 (slen (filled g.buf res.1) - g.ri) = ((filled g.buf res.1).len : Int) - g.ri := by
+      rw [wrap_i64_id] <;> simp [slen, filled] <;> omega
+    have hw1 : wrap .i64 (-1 + 1) = 0 := by decide
+    have hw0 : wrap .i64 0 = 0 := by decide
+    have hw2 : wrap .i64 (i + 1) = i + 1 := by rw [wrap_i64_id] <;> omega
+    have hw3 : wrap .i64 (1 + i) = i + 1 := by rw [wrap_i64_id] <;> omega
+    have hge : ¬ (100 : Int) ≤ i := by omega
+    rw [DefaultReader_acquireSlow_loop3]
+    -- up to `r.buf = r.buf[:len(r.buf)+m]`, however the bound is written
+    simp [hlt, hge, h1, hrd, ifaceGet, h2, h3, h4]
+    rw [h5]
+    rotate_left
+    · simp only [slen, putBack]; rw [wrap_i64_id] <;> omega
+    by_cases he : res.2.1 = none
+    · by_cases hn : n ≤ ((filled g.buf res.1).len : Int) - g.ri
+      · have hn' : ¬ ((filled g.buf res.1).len : Int) - g.ri < n := by omega
+        simp [hlt, hge, h1, hrd, ifaceGet, h2, h3, h4, errCon_nil_iff, hw, he, hn, hn', ite_bind]
+      · have hn' : ((filled g.buf res.1).len : Int) - g.ri < n := by omega
+        -- first everything up to the count of the round, then (second pass) the `m > 0` reset, in either reading
+        simp [hlt, hge, h1, hrd, ifaceGet, h2, h3, h4, errCon_nil_iff, hw, he, hn, hn']
+        by_cases hp : 0 < res.1.length
+        · have hp1 : res.1.length ≠ 0 := by omega
+          have hp2 : res.1 ≠ [] := by intro h; simp [h] at hp
+          simp [hp, hp1, hp2, hw1, hw0]
+        · have hp1 : res.1.length = 0 := by omega
+          have hp2 : res.1 = [] := List.eq_nil_of_length_eq_zero hp1
+          simp [hp2, hw2, hw3]
+    · simp [hlt, hge, h1, hrd, ifaceGet, h2, h3, h4, errCon_nil_iff, hw, he, ite_bind]
+  · intro fuel g i hge
+    have hge' : (100 : Int) ≤ i := by omega
+    rw [DefaultReader_acquireSlow_loop3]
+    simp [hge, hge']))
+
+/-- the type of the read loop of acquireSlow: fuel, the variables it assigns (the receiver and the counter `i`) -/
+abbrev ReadLoopT :=
+  Nat → S_DefaultReader Src → Int → GM (LoopR (S_DefaultReader Src × Int) (S_DefaultReader Src × Int))
+
+/-- one round of the read loop of acquireSlow, in normal form: what ANY function `L` must satisfy to be that loop (the
+    generated loop function — whatever it is called with — is shown to satisfy it by `read_step` at the use site) -/
+def ReadStep (L : ReadLoopT) (n : Int) : Prop :=
+  (∀ (fuel : Nat) (g : S_DefaultReader Src) (i : Int) (s : Src), g.rd = some s → GInv g → i < 100 → -1 ≤ i →
+    L (fuel + 1) g i =
       (let res := s.read (g.buf.mem.length - g.buf.len)
        let g1 : S_DefaultReader Src := { g with rd := some res.2.2, buf := filled g.buf res.1 }
        if res.2.1 ≠ none then .ok (.ret ({ g1 with err := errCon res.2.1 }, (g1.buf.len : Int) - g.ri))
        else if n ≤ (g1.buf.len : Int) - g.ri then .ok (.ret (g1, n))
-       else DefaultReader_acquireSlow_loop3 srcReader O n fuel (if res.1.length > 0 then 0 else i + 1) g1) := by
-  have h1 := spare_ok g.buf hi.len_le
-  obtain ⟨h2, h3, h4, h5, h6⟩ := refill_ok g.buf s hi.len_le hi.cap_le
-  have hrl := Src.read_len s (g.buf.mem.length - g.buf.len)
-  simp only [h2] at h5 h6
-  generalize hres : s.read (g.buf.mem.length - g.buf.len) = res at *
-  have hri0 := hi.ri_nonneg; have hri := hi.ri_le; have hlen := hi.len_le; have hcap := hi.cap_le
-  have hw : wrap .i64 (slen (filled g.buf res.1) - g.ri) = ((filled g.buf res.1).len : Int) - g.ri := by
-    rw [wrap_i64_id] <;> simp [slen, filled] <;> omega
-  have hw1 : wrap .i64 (-1 + 1) = 0 := by decide
-  have hw0 : wrap .i64 0 = 0 := by decide
-  have hw2 : wrap .i64 (i + 1) = i + 1 := by rw [wrap_i64_id] <;> omega
-  conv => lhs; unfold DefaultReader_acquireSlow_loop3
-  simp [hlt, h1, hrd, ifaceGet, h2, h3, h4, h5, h6, errCon_nil_iff, hw]
-  by_cases he : res.2.1 = none
-  · simp [he, errCon_nil_iff, hw]
-    by_cases hn : n ≤ ((filled g.buf res.1).len : Int) - g.ri
-    · simp [hn]
-    · simp [hn]
-      by_cases hp : 0 < res.1.length
-      · simp [hp, hw1, hw0]
-      · simp [hp, hw2]
-  · simp [he, errCon_nil_iff, hw]
+       else L fuel g1 (if res.1.length > 0 then 0 else i + 1))) ∧
+  (∀ (fuel : Nat) (g : S_DefaultReader Src) (i : Int), ¬ i < 100 → L (fuel + 1) g i = .ok (.done (g, i)))
 
 /-! ## the simulation relation: the model state is the abstraction of the generated state, up to the bytes below `ri`
     (consumed: neither side ever reads them again; after a growth the Go buffer holds DIRTY bytes there, the model
@@ -346,17 +433,17 @@ theorem sim_fill (g : S_DefaultReader Src) (m : Rd) (hs : Sim g m) (hi : GInv g)
     omega
 
 /-- what the read loop hands back, against the model's answer `(k, m')` -/
-def LoopOut (r : LoopR (S_DefaultReader Src × Int) (Int × S_DefaultReader Src)) (k : Nat) (m' : Rd) : Prop :=
+def LoopOut (r : LoopR (S_DefaultReader Src × Int) (S_DefaultReader Src × Int)) (k : Nat) (m' : Rd) : Prop :=
   match r with
   | .ret (g', k') => k' = (k : Int) ∧ Sim g' m' ∧ GInv g'
-  | .done (_, g') => (k : Int) = (g'.buf.len : Int) - g'.ri ∧
+  | .done (g', _) => (k : Int) = (g'.buf.len : Int) - g'.ri ∧
       Sim { g' with err := Err.noProgress } m' ∧ GInv { g' with err := Err.noProgress }
 
 /-- the read loop of acquireSlow (with its `i = -1` reset) is the model's `Rd.readLoop`: any fuel at least the model's -/
-theorem read_loop_sim (O : Nat → Nat → Bytes) (n : Nat) (f : Nat) :
+theorem read_loop_sim (L : ReadLoopT) (n : Nat) (hL : ReadStep L (n : Int)) (f : Nat) :
     ∀ (i : Nat) (g : S_DefaultReader Src) (m : Rd) (k : Nat) (m' : Rd), Sim g m → GInv g →
       Rd.readLoop f i m n = some (k, m') → ∀ fuel, f ≤ fuel →
-      ∃ r, DefaultReader_acquireSlow_loop3 srcReader O (n : Int) fuel (i : Int) g = .ok r ∧ LoopOut r k m' := by
+      ∃ r, L fuel g (i : Int) = .ok r ∧ LoopOut r k m' := by
   induction f with
   | zero => intro i g m k m' _ _ h; simp [Rd.readLoop] at h
   | succ f ih =>
@@ -370,12 +457,12 @@ theorem read_loop_sim (O : Nat → Nat → Bytes) (n : Nat) (f : Nat) :
       simp only [hge, if_true, Option.some.injEq, Prod.mk.injEq] at h
       obtain ⟨hk, hm⟩ := h
       have : ¬ (i : Int) < 100 := by simp [Facts.maxConsecutiveEmptyReads] at hge; omega
-      refine ⟨.done (i, g), by simp [DefaultReader_acquireSlow_loop3, this], ?_⟩
+      refine ⟨.done (g, i), hL.2 fuel g i this, ?_⟩
       subst hm hk
       refine ⟨by omega, ⟨hs.len, hs.live, hs.cap, hs.ri, rfl, hs.ro, hs.stats, hs.idx, hs.src⟩,
         ⟨hi.len_le, hi.ri_nonneg, hi.ri_le, hi.cap_le, hi.rd_some, hi.stats_len, hi.stats_rng, hi.idx_rng⟩⟩
     · have hlt : (i : Int) < 100 := by simp [Facts.maxConsecutiveEmptyReads] at hge; omega
-      rw [loop3_succ O n fuel i g m.src hs.src hi hlt (by omega)]
+      rw [hL.1 fuel g i m.src hs.src hi hlt (by omega)]
       obtain ⟨hs1, hi1⟩ := sim_fill g m hs hi _ (Src.read_len m.src (m.cap - m.buf.length))
       simp only [hge, if_false] at h
       rw [← h2, ← h1]
@@ -422,19 +509,20 @@ def AcqOK (x : GM (S_DefaultReader Src × Int)) (y : Option (Nat × Rd)) : Prop 
     k ≤ m'.buf.length - m'.ri
 
 /-- after the read loop: `r.err = io.ErrNoProgress; return len(r.buf) - r.ri`, or what the loop returned -/
-theorem acquire_finish (O : Nat → Nat → Bytes) (fuel n : Nat) (g1 : S_DefaultReader Src) (m1 : Rd)
-    (K : LoopR (S_DefaultReader Src × Int) (Int × S_DefaultReader Src) → GM (S_DefaultReader Src × Int))
+theorem acquire_finish (L : ReadLoopT) (fuel n : Nat) (g1 : S_DefaultReader Src) (m1 : Rd)
+    (K : LoopR (S_DefaultReader Src × Int) (S_DefaultReader Src × Int) → GM (S_DefaultReader Src × Int))
+    (hL : ReadStep L (n : Int))
     (hK1 : ∀ x, K (.ret x) = .ok x)
-    (hK2 : ∀ i g, K (.done (i, g)) = .ok ({ g with err := Err.noProgress }, wrap .i64 (slen g.buf - g.ri)))
+    (hK2 : ∀ g i, GInv g → K (.done (g, i)) = .ok ({ g with err := Err.noProgress }, (g.buf.len : Int) - g.ri))
     (hs : Sim g1 m1) (hi : GInv g1)
     (hfuel : Facts.maxConsecutiveEmptyReads * (m1.cap - m1.buf.length + 1) + 1 ≤ fuel) :
-    AcqOK ((DefaultReader_acquireSlow_loop3 srcReader O (n : Int) fuel 0 g1).bind K)
+    AcqOK ((L fuel g1 0).bind K)
       (Rd.readLoop (Facts.maxConsecutiveEmptyReads * (m1.cap - m1.buf.length + 1) + 1) 0 m1 n) := by
   have hsome := readLoop_fuel (Facts.maxConsecutiveEmptyReads * (m1.cap - m1.buf.length + 1) + 1) 0 m1 n (by
     rw [Nat.mul_add]; omega)
   obtain ⟨⟨k, m'⟩, hm⟩ := Option.isSome_iff_exists.mp hsome
-  obtain ⟨r, hr, hout⟩ := read_loop_sim O n _ 0 g1 m1 k m' hs hi hm fuel hfuel
-  have hr' : DefaultReader_acquireSlow_loop3 srcReader O (n : Int) fuel 0 g1 = .ok r := by simpa using hr
+  obtain ⟨r, hr, hout⟩ := read_loop_sim L n hL _ 0 g1 m1 k m' hs hi hm fuel hfuel
+  have hr' : L fuel g1 0 = .ok r := by simpa using hr
   have hpost := (readLoop_post _ _ _ _ _ _ hm).outcome
   have hkle : k ≤ m'.buf.length - m'.ri := by omega
   rw [hr', hm]
@@ -444,12 +532,19 @@ theorem acquire_finish (O : Nat → Nat → Bytes) (fuel n : Nat) (g1 : S_Defaul
     obtain ⟨hk, hs', hi'⟩ := hout
     exact ⟨g', k, m', by simp [hK1, hk], rfl, hs', hi', hkle⟩
   | done x =>
-    obtain ⟨i', g'⟩ := x
+    obtain ⟨g', i'⟩ := x
     obtain ⟨hk, hs', hi'⟩ := hout
-    have hw : wrap .i64 (slen g'.buf - g'.ri) = (k : Int) := by
-      have := hi'.ri_nonneg; have := hi'.ri_le; have := hi'.cap_le; have := hi'.len_le
-      rw [wrap_i64_id] <;> simp [slen] at * <;> omega
-    exact ⟨_, k, m', by simp [hK2, hw], rfl, hs', hi', hkle⟩
+    have hg' : GInv g' := ⟨hi'.len_le, hi'.ri_nonneg, hi'.ri_le, hi'.cap_le, hi'.rd_some, hi'.stats_len, hi'.stats_rng,
+      hi'.idx_rng⟩
+    exact ⟨_, k, m', by simp [hK2 g' i' hg', hk], rfl, hs', hi', hkle⟩
+
+/-- `r.err = io.ErrNoProgress; return len(r.buf) - r.ri` after the read loop (the `hK2` of `acquire_finish`) -/
+macro "after_loop" : tactic => `(tactic| (
+  intro g i hg
+  have := hg.len_le; have := hg.ri_nonneg; have := hg.ri_le; have := hg.cap_le
+  have hw : wrap .i64 (slen g.buf - g.ri) = (g.buf.len : Int) - g.ri := by rw [wrap_i64_id] <;> simp [slen] <;> omega
+  have hw' : wrap .i64 (-g.ri + slen g.buf) = (g.buf.len : Int) - g.ri := by rw [wrap_i64_id] <;> simp [slen] <;> omega
+  simp [hw, hw']))
 
 theorem malloc0_ok (o : Nat → Bytes) (c : Nat) (hc : c ≤ 2 ^ 45) :
     mcacheMalloc o 0 (some (c : Int)) = .ok { mem := dirty o (mcacheCap c), len := 0, nonnil := true } := by
@@ -472,17 +567,19 @@ def regrown (b nb : Sl) (ri : Nat) : Sl :=
   { mem := nb.mem.take ri ++ ((b.mem.drop ri).take (b.len - ri) ++ nb.mem.drop b.len), len := b.len, nonnil := nb.nonnil }
 
 theorem regrow_ok (b nb : Sl) (ri : Nat) (hri : ri ≤ b.len) (hlen : b.len ≤ b.mem.length)
-    (hnb : nb.len ≤ nb.mem.length) (hbig : b.len ≤ nb.len) (hcap : nb.mem.length ≤ 2 ^ 46) :
+    (hnb : nb.len ≤ nb.mem.length) (hbig : b.len ≤ nb.len) (_hcap : nb.mem.length ≤ 2 ^ 46) :
     let nbs : Sl := { nb with mem := nb.mem.drop ri, len := nb.len - ri }
     let bs : Sl := { b with mem := b.mem.drop ri, len := b.len - ri }
     ssliceFrom nb (ri : Int) = .ok nbs ∧ ssliceFrom b (ri : Int) = .ok bs ∧
-    sslice (putBack nb (ri : Int) (copySl nbs bs).1) 0 (wrap .i64 ((ri : Int) + (copySl nbs bs).2)) = .ok (regrown b nb ri) := by
-  refine ⟨?_, ?_, ?_⟩
+    (∀ hi : Int, hi = (b.len : Int) → sslice (putBack nb (ri : Int) (copySl nbs bs).1) 0 hi = .ok (regrown b nb ri)) ∧
+    (copySl nbs bs).2 = ((b.len - ri : Nat) : Int) := by
+  have hk : min (nb.len - ri) (b.len - ri) = b.len - ri := by omega
+  refine ⟨?_, ?_, ?_, by simp [copySl, hk]⟩
   · unfold ssliceFrom; rw [sslice_ok _ _ _ (by omega) (by simp [slen]; omega) (by simp [slen, scap]; omega)]; simp [slen]
   · unfold ssliceFrom; rw [sslice_ok _ _ _ (by omega) (by simp [slen]; omega) (by simp [slen, scap]; omega)]; simp [slen]
-  · have hk : min (nb.len - ri) (b.len - ri) = b.len - ri := by omega
-    have hw : wrap .i64 ((ri : Int) + ((b.len - ri : Nat) : Int)) = (b.len : Int) := by rw [wrap_i64_id] <;> omega
-    simp only [copySl, hk, hw, putBack]
+  · intro hi hhi
+    subst hhi
+    simp only [copySl, hk, putBack]
     rw [sslice_ok _ _ _ (by omega) (by omega) (by simp [scap]; omega)]
     simp [regrown, List.drop_drop]
     have e1 : ri + (b.len - ri) = b.len := by omega
@@ -544,7 +641,7 @@ theorem DefaultReader_acquireSlow_sim (O : Nat → Nat → Bytes) (fuel : Nat) (
       have hmri : m.ri = 0 := by omega
       have hmlen : m.buf = [] := List.eq_nil_of_length_eq_zero (by omega)
       have hst : ∀ x ∈ g.maxSizeStats.buckets, 0 ≤ x := fun x hx => (hi.stats_rng x hx).1
-      have e1 := maxSizeStats_maxSize_eq g.maxSizeStats hst
+      have e1 := maxSizeStats_maxSize_eq g.maxSizeStats hst hi.stats_len
       rw [← hs.stats] at e1
       have hs45 : statsMax m.stats ≤ 2 ^ 45 := statsMax_le _ _ (by
         intro x hx; rw [hs.stats] at hx
@@ -561,7 +658,6 @@ theorem DefaultReader_acquireSlow_sim (O : Nat → Nat → Bytes) (fuel : Nat) (
       have hg1 : n ≤ m1 * 2 ^ 64 := by
         calc n ≤ 1 * 2 ^ 64 := by omega
           _ ≤ m1 * 2 ^ 64 := Nat.mul_le_mul_right _ hm1pos
-      have e2 := double_loop srcReader O n (by omega) f0 m1 64 hm1pos (by omega) hf1 hg1
       have hd := doubleUntil_spec 64 m1 n hm1pos hg1
       generalize hm2 : doubleUntil 64 m1 n = m2 at *
       have hm2le : m2 ≤ 2 ^ 45 := by omega
@@ -579,10 +675,19 @@ theorem DefaultReader_acquireSlow_sim (O : Nat → Nat → Bytes) (fuel : Nat) (
       have hmax : (if ((statsMax m.stats : Nat) : Int) < 4096 then (Out.ok 4096 : GM Int) else Out.ok ((statsMax m.stats : Nat) : Int))
           = Out.ok (m1 : Int) := by
         rw [hm1']; split <;> split <;> first | rfl | omega
-      simp [-Out.bind_ok, bind_ok_nr, hge, hc', e1, hmax, e2, e3, scap, hwA, hgA, hnil]
+      simp [-Out.bind_ok, bind_ok_nr, hge, hc', e1, hmax, scap, hnil]
+      -- the doubling loop, whatever the generated function is called with
+      rw [double_bind (T := n) (f := f0) (m := m1) (g := 64) (mi := (m1 : Int)) (hT := by omega) (hmi := rfl)
+        (hm := hm1pos) (hm' := by omega) (hf := hf1) (hg := hg1)]
+      rotate_left
+      · intro f m hm hm'
+        rw [DefaultReader_acquireSlow_loop1]
+        arith_cases
+      rw [hm2]
+      simp [-Out.bind_ok, bind_ok_nr, e3, scap, hwA, hgA]
       rw [hp] at hfuel ⊢
-      refine acquire_finish O _ n _ _ _ (fun _ => rfl) (fun _ _ => rfl) ?_ ?_ hfuel
-      · exact ⟨by simp, by simp [Sl.data], by simp [hmc2], hs.ri, hge.symm.trans hs.err, rfl, hs.stats, hs.idx, hs.src⟩
+      refine acquire_finish _ _ n _ _ _ (by read_step) (fun _ => rfl) (by after_loop) ?_ ?_ hfuel
+      · exact ⟨by simp, by simp [Sl.data], by simp [hmc2], hs.ri, by first | exact hs.err | exact hge.symm.trans hs.err, rfl, hs.stats, hs.idx, hs.src⟩
       · exact ⟨by simp, hi.ri_nonneg, by simp; omega, by simp; omega, hi.rd_some, hi.stats_len, hi.stats_rng, hi.idx_rng⟩
     · have hc' : ¬ scap g.buf = 0 := by unfold scap; omega
       have hmc : ¬ m.cap = 0 := by omega
@@ -601,8 +706,6 @@ theorem DefaultReader_acquireSlow_sim (O : Nat → Nat → Bytes) (fuel : Nat) (
         have hg1 : n + m.ri ≤ (m.cap * 2) * 2 ^ 64 := by
           calc n + m.ri ≤ 1 * 2 ^ 64 := by omega
             _ ≤ (m.cap * 2) * 2 ^ 64 := Nat.mul_le_mul_right _ (by omega)
-        have e2 := grow_loop srcReader O g m.ri n h3.symm (by omega) f0 (m.cap * 2) 64 (by omega) (by omega) hf1 hg1
-        simp only [Int.natCast_mul, Int.cast_ofNat_Int] at e2
         have hd := doubleUntil_spec 64 (m.cap * 2) (n + m.ri) (by omega) hg1
         have hgc := growCap_eq 64 (m.cap * 2) m.ri n hnpos
         generalize hN : doubleUntil 64 (m.cap * 2) (n + m.ri) = N at *
@@ -613,24 +716,41 @@ theorem DefaultReader_acquireSlow_sim (O : Nat → Nat → Bytes) (fuel : Nat) (
         have hpc45 := pow2ceil_le45 N hNle
         have hp : m.prepare n = { m with cap := pow2ceil N, readOnly := false } := by
           simp [Rd.prepare, hmc, hg, hgc]
-        obtain ⟨r1, r2, r3⟩ := regrow_ok g.buf { mem := dirty (O 2) (mcacheCap N), len := N, nonnil := true } m.ri
+        obtain ⟨r1, r2, r3, r4⟩ := regrow_ok g.buf { mem := dirty (O 2) (mcacheCap N), len := N, nonnil := true } m.ri
           (by omega) hlen (by simp; omega) (by simp; omega) (by simp; omega)
         rw [h3] at r1 r2 r3
         obtain ⟨d1, d2⟩ := regrown_data g.buf { mem := dirty (O 2) (mcacheCap N), len := N, nonnil := true } m.ri
           (by omega) hlen (by simp; omega)
         rw [hp] at hfuel ⊢
+        have hg'' : ¬ (n : Int) ≤ ((m.cap - m.ri : Nat) : Int) := by omega
+        have hwc' : wrap .i64 (2 * scap g.buf) = (m.cap : Int) * 2 := by
+          rw [wrap_i64_id] <;> simp [scap] <;> omega
+        simp only [Int.natCast_mul, Int.cast_ofNat_Int] at hwc
         cases hro : g.bufReadOnly <;>
-        · simp [-Out.bind_ok, bind_ok_nr, hge, hc', hw, hg', hwc, e2, e3, hro, r1, r2, r3]
-          refine acquire_finish O _ n _ _ _ (fun _ => rfl) (fun _ _ => rfl) ?_ ?_ hfuel
+        · simp [-Out.bind_ok, bind_ok_nr, hge, hc', hw, hg', hg'', hwc, hwc']
+          rw [double_bind (T := n + m.ri) (f := f0) (m := m.cap * 2) (g := 64) (mi := (m.cap : Int) * 2) (hT := by omega)
+            (hmi := by simp) (hm := by omega) (hm' := by omega) (hf := hf1) (hg := hg1)]
+          rotate_left
+          · intro f c hc0 hc1
+            rw [DefaultReader_acquireSlow_loop2]
+            arith_cases
+          rw [hN]
+          simp [-Out.bind_ok, bind_ok_nr, e3, hro, r1, r2, r4]
+          rw [r3]
+          rotate_left
+          · rw [wrap_i64_id] <;> omega
+          simp [-Out.bind_ok, bind_ok_nr]
+          refine acquire_finish _ _ n _ _ _ (by read_step) (fun _ => rfl) (by after_loop) ?_ ?_ hfuel
           · exact ⟨by simp [regrown, h1], by simpa [hs.live] using d1.symm, by simp only []; rw [d2]; simp [hmc2], hs.ri,
-              hge.symm.trans hs.err, rfl, hs.stats, hs.idx, hs.src⟩
+              by first | exact hs.err | exact hge.symm.trans hs.err, rfl, hs.stats, hs.idx, hs.src⟩
           · exact ⟨by simp [d2]; simp [regrown]; omega, hi.ri_nonneg, by simp [regrown]; omega, by simp [d2]; omega,
               hi.rd_some, hi.stats_len, hi.stats_rng, hi.idx_rng⟩
       · have hg' : ¬ (n : Int) > ((m.cap - m.ri : Nat) : Int) := by omega
         have hp : m.prepare n = m := by simp [Rd.prepare, hmc, hg]
         rw [hp] at hfuel ⊢
-        simp [hge, hc', hw, hg']
-        exact acquire_finish O _ n g m _ (fun _ => rfl) (fun _ _ => rfl) hs hi hfuel
+        have hg'' : (n : Int) ≤ ((m.cap - m.ri : Nat) : Int) := by omega
+        simp [hge, hc', hw, hg', hg'']
+        exact acquire_finish _ _ n g m _ (by read_step) (fun _ => rfl) (by after_loop) hs hi hfuel
 
 theorem DefaultReader_acquire_sim (O : Nat → Nat → Bytes) (fuel : Nat) (g : S_DefaultReader Src) (m : Rd) (n : Nat)
     (hs : Sim g m) (hi : GInv g) (hcap : g.buf.mem.length ≤ 2 ^ 44) (hreq : n + m.ri ≤ 2 ^ 44)
@@ -670,14 +790,15 @@ theorem take_live (g : S_DefaultReader Src) (m : Rd) (n : Nat) (hs : Sim g m) (h
     (hn : n ≤ m.buf.length - m.ri) :
     sslice g.buf g.ri ((m.ri : Int) + (n : Int)) =
         .ok { g.buf with mem := g.buf.mem.drop m.ri, len := n } ∧
-      wrap .i64 (g.ri + (n : Int)) = (m.ri : Int) + (n : Int) ∧
+      (wrap .i64 (g.ri + (n : Int)) = (m.ri : Int) + (n : Int) ∧ wrap .i64 ((n : Int) + g.ri) = (m.ri : Int) + (n : Int)) ∧
       ((g.buf.mem.drop m.ri).take n = (m.buf.drop m.ri).take n) ∧
       Sim { g with ri := ((m.ri + n : Nat) : Int) } { m with ri := m.ri + n } ∧
       GInv { g with ri := ((m.ri + n : Nat) : Int) } := by
   have hlen := hi.len_le; have hri := hi.ri_le; have hri0 := hi.ri_nonneg; have hc := hi.cap_le
   have h1 := hs.len; have h3 := hs.ri
   have hw : wrap .i64 (g.ri + (n : Int)) = (m.ri : Int) + (n : Int) := by rw [wrap_i64_id] <;> omega
-  refine ⟨?_, hw, ?_, ⟨hs.len, ?_, hs.cap, rfl, hs.err, hs.ro, hs.stats, hs.idx, hs.src⟩,
+  have hwc : wrap .i64 ((n : Int) + g.ri) = (m.ri : Int) + (n : Int) := by rw [wrap_i64_id] <;> omega
+  refine ⟨?_, ⟨hw, hwc⟩, ?_, ⟨hs.len, ?_, hs.cap, rfl, hs.err, hs.ro, hs.stats, hs.idx, hs.src⟩,
     ⟨hi.len_le, by simp; omega, by simp; omega, hi.cap_le, hi.rd_some, hi.stats_len, hi.stats_rng, hi.idx_rng⟩⟩
   · rw [sslice_ok _ _ _ (by omega) (by omega) (by simp [scap]; omega), ← h3]
     simp
@@ -705,9 +826,9 @@ theorem DefaultReader_Next_sim (O : Nat → Nat → Bytes) (fuel : Nat) (g : S_D
       exact ⟨g', Sl.nil, g'.err, by simp [hneg, hx, hgt', hle'], by simp [hgt, ResOK, hs'.err], by simpa [hgt] using hs', hi'⟩
     · have hgt' : ¬ (k : Int) > (j : Int) := by omega
       have hle' : (k : Int) ≤ (j : Int) := by omega
-      obtain ⟨t1, t2, t3, t4, t5⟩ := take_live g' m' k hs' hi' (by omega)
+      obtain ⟨t1, ⟨t2, t2c⟩, t3, t4, t5⟩ := take_live g' m' k hs' hi' (by omega)
       refine ⟨{ g' with ri := ((m'.ri + k : Nat) : Int) }, { g'.buf with mem := g'.buf.mem.drop m'.ri, len := k }, Err.nil,
-        by simp [hneg, hx, hgt', hle', t1, t2], ?_, by simpa [hgt] using t4, t5⟩
+        by simp [hneg, hx, hgt', hle', t1, t2, t2c], ?_, by simpa [hgt] using t4, t5⟩
       simp [hgt, ResOK, Sl.data, t3]
 
 theorem DefaultReader_Peek_sim (O : Nat → Nat → Bytes) (fuel : Nat) (g : S_DefaultReader Src) (m : Rd) (n : Int)
@@ -727,9 +848,9 @@ theorem DefaultReader_Peek_sim (O : Nat → Nat → Bytes) (fuel : Nat) (g : S_D
       exact ⟨g', Sl.nil, g'.err, by simp [hneg, hx, hgt', hle'], by simp [hgt, ResOK, hs'.err], by simpa [hgt] using hs', hi'⟩
     · have hgt' : ¬ (k : Int) > (j : Int) := by omega
       have hle' : (k : Int) ≤ (j : Int) := by omega
-      obtain ⟨t1, t2, t3, t4, t5⟩ := take_live g' m' k hs' hi' (by omega)
+      obtain ⟨t1, ⟨t2, t2c⟩, t3, t4, t5⟩ := take_live g' m' k hs' hi' (by omega)
       refine ⟨g', { g'.buf with mem := g'.buf.mem.drop m'.ri, len := k }, Err.nil,
-        by simp [hneg, hx, hgt', hle', t1, t2], ?_, by simpa [hgt] using hs', hi'⟩
+        by simp [hneg, hx, hgt', hle', t1, t2, t2c], ?_, by simpa [hgt] using hs', hi'⟩
       simp [hgt, ResOK, Sl.data, t3]
 
 theorem DefaultReader_Skip_sim (O : Nat → Nat → Bytes) (fuel : Nat) (g : S_DefaultReader Src) (m : Rd) (n : Int)
@@ -749,8 +870,8 @@ theorem DefaultReader_Skip_sim (O : Nat → Nat → Bytes) (fuel : Nat) (g : S_D
       exact ⟨g', g'.err, by simp [hneg, hx, hgt', hle'], by simp [hgt, ResOK, hs'.err], by simpa [hgt] using hs', hi'⟩
     · have hgt' : ¬ (k : Int) > (j : Int) := by omega
       have hle' : (k : Int) ≤ (j : Int) := by omega
-      obtain ⟨t1, t2, t3, t4, t5⟩ := take_live g' m' k hs' hi' (by omega)
-      refine ⟨{ g' with ri := ((m'.ri + k : Nat) : Int) }, Err.nil, by simp [hneg, hx, hgt', hle', t2], ?_, by simpa [hgt] using t4, t5⟩
+      obtain ⟨t1, ⟨t2, t2c⟩, t3, t4, t5⟩ := take_live g' m' k hs' hi' (by omega)
+      refine ⟨{ g' with ri := ((m'.ri + k : Nat) : Int) }, Err.nil, by simp [hneg, hx, hgt', hle', t2, t2c], ?_, by simpa [hgt] using t4, t5⟩
       simp [hgt, ResOK, Sl.data, Sl.nil]
 
 /-- `ReadLen` is the model's `readLen` (exactly) -/
@@ -776,7 +897,7 @@ theorem DefaultReader_ReadBinary_sim (O : Nat → Nat → Bytes) (fuel : Nat) (g
   generalize hq : (if j > bs.len then bs.len else j) = q
   have hqle : q ≤ bs.len := by subst hq; split <;> omega
   have hqj : q ≤ m'.buf.length - m'.ri := by subst hq; split <;> omega
-  obtain ⟨t1, t2, t3, t4, t5⟩ := take_live g' m' q hs' hi' hqj
+  obtain ⟨t1, ⟨t2, t2c⟩, t3, t4, t5⟩ := take_live g' m' q hs' hi' hqj
   have hlenq : ((m'.buf.drop m'.ri).take q).length = q := by simp; omega
   refine ⟨{ g' with ri := ((m'.ri + q : Nat) : Int) }, (m'.buf.drop m'.ri).take q, q,
     if bs.len > q then m'.err else none, ?_, rfl, t4, t5⟩
@@ -785,15 +906,15 @@ theorem DefaultReader_ReadBinary_sim (O : Nat → Nat → Bytes) (fuel : Nat) (g
   · have hjb' : (bs.len : Int) < (j : Int) := by omega
     have hqe : q = bs.len := by subst hq; simp [hjb]
     subst hqe
-    simp [slen, hx, hjb, hjb', t1, t2, copySl, t3, hlenq, errCon]
+    simp [slen, hx, hjb, hjb', t1, t2, t2c, copySl, t3, hlenq, errCon]
   · have hjb' : ¬ (bs.len : Int) < (j : Int) := by omega
     have hqe : q = j := by subst hq; simp [hjb]
     subst hqe
     by_cases hgt : bs.len > q
     · have hgt' : (q : Int) < (bs.len : Int) := by omega
-      simp [slen, hx, hjb, hjb', t1, t2, copySl, hmin, hgt, hgt', t3, hlenq, hs'.err]
+      simp [slen, hx, hjb, hjb', t1, t2, t2c, copySl, hmin, hgt, hgt', t3, hlenq, hs'.err]
     · have hgt' : ¬ (q : Int) < (bs.len : Int) := by omega
-      simp [slen, hx, hjb, hjb', t1, t2, copySl, hmin, hgt, hgt', t3, hlenq, errCon]
+      simp [slen, hx, hjb, hjb', t1, t2, t2c, copySl, hmin, hgt, hgt', t3, hlenq, errCon]
 
 /-! ### Release -/
 
